@@ -7,6 +7,7 @@ import Mathlib.Analysis.SpecialFunctions.Pow.Real
 import Mathlib.Analysis.SpecialFunctions.Arsinh
 import Mathlib.Analysis.SpecialFunctions.Log.Basic
 import Mathlib.Analysis.SpecialFunctions.Sqrt
+import Mathlib.Analysis.Convex.SpecificFunctions.Basic
 import Mathlib.Tactic.Ring
 import Mathlib.Tactic.Linarith
 import Mathlib.Tactic.FieldSimp
@@ -269,6 +270,37 @@ theorem YeoJohnson.fwdW_nonpos (lam w : ℝ) (hw : w ≤ 0) : YeoJohnson.fwdW la
     · have : 1 ≤ (-w + 1) ^ (2 - lam) := Real.one_le_rpow h1 h.le
       rw [div_nonpos_iff]; right
       exact ⟨by linarith, h.le⟩
+
+
+/-- Bernoulli: for `lam ≥ 1` the positive branch lies above the identity, so `w ≥ EPS ⇒ forward ≥ EPS` -/
+theorem YeoJohnson.le_fwdW_of_one_le (lam w : ℝ) (hl : 1 ≤ lam) (hw : eps ≤ w) : w ≤ YeoJohnson.fwdW lam w := by
+  have h0 : isclose0 lam = false := by
+    unfold isclose0
+    rw [decide_eq_false_iff_not, absv_eq, abs_of_pos (by linarith)]
+    have : (1e-8 : ℝ) < 1 := by norm_num
+    linarith
+  unfold YeoJohnson.fwdW
+  rw [if_pos hw]
+  simp only [h0, Bool.false_eq_true, if_false, transc_pow]
+  have hb := one_add_mul_self_le_rpow_one_add (s := w) (by linarith [eps_pos]) hl
+  rw [le_div_iff₀ (by linarith)]
+  rw [show w + 1 = 1 + w by ring]
+  linarith
+
+/-- Bernoulli: for `lam ≤ 1` the negative branch lies below the identity, so `w < EPS ⇒ forward < EPS` -/
+theorem YeoJohnson.fwdW_le_of_le_one (lam w : ℝ) (hl : lam ≤ 1) (hw : w < eps) : YeoJohnson.fwdW lam w ≤ w := by
+  have h2 : isclose2 lam = false := by
+    unfold isclose2
+    rw [decide_eq_false_iff_not, absv_eq, abs_of_neg (by linarith)]
+    have : (1e-8 : ℝ) + 1e-5 * 2 < 1 := by norm_num
+    linarith
+  unfold YeoJohnson.fwdW
+  rw [if_neg (not_le.mpr hw)]
+  simp only [h2, Bool.false_eq_true, if_false, transc_pow]
+  have hb := one_add_mul_self_le_rpow_one_add (s := -w) (by linarith [eps_lt_one]) (p := 2 - lam) (by linarith)
+  rw [div_le_iff₀ (by linarith)]
+  rw [show -w + 1 = 1 + -w by ring]
+  nlinarith
 
 /-! ### LogSinh -/
 
